@@ -20,6 +20,7 @@ RULE = (
     "; pass 5: library operations (exact / heteroskedastic / variational+fantasy / CIQ / cylindrical / lazy-kernel) built before, inside, or used after a user's block for every settings class"
     '; pass 6: per-dtype settings given exactly 0'
     "; pass 8: worker threads (started inside the block, and pooled threads started before it) read the block's values, and the defaults afterwards"
+    "; pass 9: library operations that raise half-way and are caught by the caller; every setting constructed / entered with warnings turned into errors (alone and nested in a block of the same setting)"
 )
 REQUIRED = ["other_threads_see_the_same_values", "library_call_keeps_block_values", "enter_matches_model", "exit_matches_model", "end_equals_defaults", "inner_value_visible", "reentered_object_end_equals_defaults", "reentered_object_inner_value_visible"]
 ASSUMPTIONS = [
